@@ -406,6 +406,7 @@ def run(ctx: Ctx):
         "bounds, components of different sizes, probs with an exact zero, batch shapes."
     )
     ctx.assumptions = ["scipy.stats / scipy.integrate.quad / scipy.special as float64 references", "JAX PRNG quality for the goodness-of-fit tests", "x64"]
+    ctx.clear_caches_every = ctx.n(0, 300)  # parameter shapes vary from case to case
     n = ctx.n(90, 3000)
     ctx.run_given("categorical", categorical_cases(), oracle_categorical, n)
     ctx.run_given("bernoulli", bernoulli_cases(), oracle_bernoulli, n)
